@@ -190,18 +190,16 @@ theorem step_conv_sv_table {s s' : State} {a b dt it : Nat} {cb : Cont}
         unfold Cont.convertFrom at hr
         simp only [hk, if_true] at hr
         unfold Cont.svConvert at hr
-        split at hr
-        · cases hr
-        · have key : CloneTable s.pool.length 3 c1 cb := by
-            split at hr
-            · rename_i hty
-              simp only [Bool.and_eq_true, decide_eq_true_eq] at hty
-              exact cloneTable_same hr hty.1 hty.2
-            · exact cloneTable_cross hr
-          obtain ⟨hf, ki, ke⟩ := key
-          simp only [true_or, if_true] at ki
-          simp only [show ¬ (3 = 0) by omega, if_false] at ke
-          exact ⟨hf, ke, ki⟩
+        have key : CloneTable s.pool.length 3 c1 cb := by
+          split at hr
+          · rename_i hty
+            simp only [Bool.and_eq_true, decide_eq_true_eq] at hty
+            exact cloneTable_same hr hty.1 hty.2
+          · exact cloneTable_cross hr
+        obtain ⟨hf, ki, ke⟩ := key
+        simp only [true_or, if_true] at ki
+        simp only [show ¬ (3 = 0) by omega, if_false] at ke
+        exact ⟨hf, ke, ki⟩
 
 /-- `x.convert(x)` changes nothing at all: same container content, same pool -/
 theorem step_conv_self {s s' : State} {a dt it : Nat} {c : Cont} (h : step s (.conv a a dt it) = .ok s')
